@@ -36,7 +36,8 @@
 (* format-changing and $ref-restructuring commands in any order, that what *)
 (* a server embeds is the document it was generated from whatever chain of *)
 (* commands produced that document, that diff of two renderings of one     *)
-(* document is empty, that no command touches the user's files.            *)
+(* document is empty, that no command touches the user's files, that every *)
+(* document any chain of commands leaves in the workspace validates.       *)
 (***************************************************************************)
 EXTENDS Integers, Sequences, FiniteSets, TLC, Json
 
@@ -58,7 +59,7 @@ VARIABLES docs,       \* DocNames -> document or NoDoc
           target,     \* [models, server, client : Content or <<"none">>, user : set of user files]
           embOrig,    \* Content of the original document a generated server embeds, or <<"none">>
           embFlat,    \* meaning of the flattened document that drives the generated server, or "none"
-          report,     \* [kind |-> "none" | "empty" | "diff" | "layout"]
+          report,     \* [kind |-> "none" | "empty" | "diff" | "layout" | "valid"]
           exit,       \* exit status of the last command
           hist
 fvars == <<docs, target, embOrig, embFlat, report, exit, hist>>
@@ -132,8 +133,17 @@ Diff(a, b) ==
   /\ Log([a |-> "diff", x |-> a, y |-> b])
   /\ UNCHANGED <<docs, target, embOrig, embFlat>>
 
+\* ---- validate: every document of the workspace is a valid Swagger 2.0 document - the initial ones by
+\* construction, the others because the spec -> spec commands preserve validity; nothing is written
+Validate(src) ==
+  /\ Room /\ Present(src)
+  /\ report' = [kind |-> "valid"] /\ exit' = 0
+  /\ Log([a |-> "validate", src |-> src])
+  /\ UNCHANGED <<docs, target, embOrig, embFlat>>
+
 Replayable ==
   \/ \E s, d \in DocNames, f \in Formats : Flatten(s, d, f) \/ Expand(s, d, f) \/ Mixin(s, d, f)
+  \/ \E s \in DocNames : Validate(s)
   \/ \E s \in DocNames : \E k \in {"models", "server", "client"} : Generate(k, s)
   \/ \E a, b \in DocNames : Diff(a, b)
   \/ \E u \in UserFiles : UserAddsFile(u)
